@@ -24,6 +24,12 @@ pub proof fn lemma_parent_of_join(p: ItemPath, s: Seq<char>)
     assert(path_view(q) =~= path_view(p));
     axiom_path_ext(q, p);
 }
+/// the impl blocks of a module's source, keyed by the path of the type they belong to: every block is there,
+/// unchanged, and nothing else (C05 "every function declared in an impl block", C14 "never a silent overwrite")
+pub open spec fn impl_blocks_kept(path: ItemPath, blocks: Seq<grammar::FunctionBlock>, m: Map<ItemPath, grammar::FunctionBlock>) -> bool {
+    &&& forall|k: int| 0 <= k < blocks.len() ==> m.contains_key(#[trigger] spec_join(path, blocks[k].name.0@)) && m[spec_join(path, blocks[k].name.0@)] == blocks[k]
+    &&& forall|p: ItemPath| #[trigger] m.contains_key(p) ==> exists|k: int| 0 <= k < blocks.len() && p == spec_join(path, #[trigger] blocks[k].name.0@)
+}
 /// the semantic extern value of a declaration: name, visibility, unresolved type, and the address attribute
 pub open spec fn extern_value_ok(ev: grammar::ExternValue, out: ExternValue) -> bool {
     &&& out.visibility == vis_of(ev.visibility)
